@@ -8,19 +8,19 @@ BASELINE = "cd /repo && cargo test --workspace --no-fail-fast --offline"
 CLAIMED = {
     "C01": (
         "runtime monitor: accepted-implies-lossless boundary oracle (reference tokeniser on input vs serialised output) + byte-conservation monitor over MessageParser hook events",
-        "Exploration: every corpus message of all 30 types under every single structural mutation (unknown / duplicated / deleted / swapped / moved / foreign fields, unknown option letter, appended content, extra lines, certainly-invalid content, repetition counts around caps, LF/CRLF, bare and in an envelope; pairs of mutations in thorough). For each accepted text the reference-tokenised input must equal the tokenised output (tags in order, content up to number / line-end formatting) and the hook trace must account for every byte.",
+        "Exploration: every corpus message of all 30 types, and generated messages of every type (maximal, one per documented option, random shapes), under every single structural mutation (unknown / duplicated / deleted / swapped / moved / foreign fields, unknown option letter, appended content, extra lines, terminator and marker look-alikes inside and at the ends of values, certainly-invalid content, repetition counts around caps, LF/CRLF, bare and in an envelope; pairs of mutations in thorough). For each accepted text the reference-tokenised input must equal the tokenised output (tags in order, content up to number / line-end formatting) and the hook trace must account for every byte.",
         "Trusted: the 30-line reference tokeniser and the number canonicalisation. Hooks only explain and double-check; the boundary comparison is primary.",
         "DESIGN.md section 3, C01",
     ),
     "C02": (
         "runtime monitor: metamorphic round-trip oracle (parse, serialise, re-parse, compare three views, fixed point) over corpus, mutated and re-spelled inputs",
-        "Exploration: for every input the library accepts (corpus messages, all single structural mutations, per-field spelling variants, LF/CRLF, full envelopes; every corpus field content and its variants through every field type of the same number, with and without option letter) the monitor re-parses the library's own output and compares Debug, JSON and re-serialisation; held = no unlisted difference on the executions observed.",
+        "Exploration: for every input the library accepts (corpus messages and generated messages of every type with all single structural mutations, per-field spelling variants, LF/CRLF, corpus / generated / sparse envelopes; every corpus field content and its variants through every field type of the same number, with and without option letter; every spec-derived boundary candidate of the 88 documented field formats) the monitor re-parses the library's own output and compares Debug, JSON and re-serialisation; held = no unlisted difference on the executions observed.",
         "Spec-free oracle: the library is compared with itself, so it cannot demand more than the statement. Covers only inputs the workload produces.",
         "DESIGN.md section 3, C02",
     ),
     "C08": (
         "runtime monitor: metamorphic JSON equalities (from_value.to_value = id, publish = to_mt_message, parse plugin = to_value.parse) + structural scan (input order, no empty placeholders, numeric leaves) on generated, corpus and field-level values",
-        "Exploration: generated well-formed messages of all 30 types in generated and corpus envelopes, all corpus messages and every corpus field content with spelling variants through every field type: JSON round trip must not change the value, publishing the JSON must equal direct serialisation, the parse plugin must agree with the typed API, every written occurrence must sit at its input position in the JSON, no empty placeholder and no non-numeric amount / rate.",
+        "Exploration: generated well-formed messages of all 30 types in generated and corpus envelopes, all corpus messages, every corpus field content with spelling variants through every field type and every spec-derived boundary candidate (lengths, dates around the century window, character classes): JSON round trip must not change the value, publishing the JSON must equal direct serialisation, the parse plugin must agree with the typed API, every written occurrence must sit at its input position in the JSON, no empty placeholder and no non-numeric amount / rate.",
         "Equality judged on Debug rendering and serde_json values (null = absent, numbers by exact decimal).",
         "DESIGN.md section 3, C08",
     ),
@@ -32,7 +32,7 @@ CLAIMED = {
     ),
     "C10": (
         "runtime monitor: envelope generator + independent brace-structure reader; tag->value map comparison of input vs re-serialised output; near-miss malformed headers must be rejected",
-        "Exploration (exhaustive over the 8192 block-3 and 256 block-5 tag subsets): envelopes built from documented components around real bodies of all 30 types (input headers 17/18/21, output headers 46/47, 8/11-character BICs, marker look-alikes inside values) must be accepted and reproduced (blocks 1, 2 byte-identical; blocks 3, 5 as tag->value maps), and headers of wrong length, direction or character class must be rejected.",
+        "Exploration (exhaustive over the 8192 block-3 and 256 block-5 tag subsets): envelopes built from documented components around real bodies of all 30 types (input headers 17/18/21, output headers 46/47, 8/11-character BICs, every block-3 tag at its minimum and maximum documented length, marker look-alikes inside values) must be accepted and reproduced (blocks 1, 2 byte-identical; blocks 3, 5 as tag->value maps), and headers of wrong length, direction or character class must be rejected.",
         "Trusted: 40-line brace splitter; malformed classes limited to those the statement names.",
         "DESIGN.md section 3, C10",
     ),
@@ -56,19 +56,19 @@ CLAIMED = {
     ),
     "C14": (
         "runtime monitor: letter-vs-emitted-tag oracle over 25 families x 27 letters x valid and ambiguous contents; concrete per-option parsers as referees for the heuristic parse; every letter at every multi-option message position",
-        "Exploration: every multi-option family with every letter A-Z (and none) on contents valid for some option of the field number, including deliberately ambiguous ones: an accepted value must serialise under the letter it was parsed with, undocumented letters must not be converted, the heuristic parse must return an option whose own parser accepts the content and that is stable under re-parsing; at message level every letter at every multi-option position of maximal generated messages must be preserved or rejected.",
+        "Exploration: every multi-option family with every letter A-Z (and none) on contents valid for some option of the field number, including deliberately ambiguous ones: an accepted value must serialise under the letter it was parsed with, undocumented letters must not be converted, the heuristic parse must return an option whose own parser accepts the content and that is stable under re-parsing; at message level every letter at every multi-option position of maximal generated messages must be preserved or rejected, and every documented option at its documented position must be accepted (differential against the other documented options and the message without the field) and preserved.",
         "Spec-free core (the letter itself); documented options per family restated from the enum documentation.",
         "DESIGN.md section 3, C14",
     ),
     "C15": (
         "runtime monitor: exact JSON comparison over the real generate/publish/validate/parse plugin pipeline on every shipped scenario x N seeded draws",
-        "Exploration: every scenario file found at run time is drawn 300 (quick) / 5000 (thorough) times through the real datafake generator and the real plugin handlers; the parsed JSON must equal the generated JSON exactly (no rounding), validation must report no error.",
+        "Exploration: every scenario file found at run time is drawn 1500 (quick) / 20000 (thorough) times through the real datafake generator and the real plugin handlers, plus 6000 / 120000 generator-only draws per scenario of which those with a record-length or blank-edged value go through the handlers (tail hunting); the parsed JSON must equal the generated JSON exactly (no rounding), validation must report no error.",
         "Draws are random (seeded through an LD_PRELOAD entropy shim when a C compiler is present); the generated JSON is the stored witness.",
         "DESIGN.md section 3, C15",
     ),
     "C16": (
         "runtime monitor: reference tokeniser vs field map; offline check of recorded tracker call/return histories against a sequential model; conservation check of sequence splitting",
-        "Exploration: block-4 texts of all corpus messages and their structural mutants are tokenised by the library and by the reference tokeniser (occurrences, documented tag normalisation, content, strictly increasing stamps); thousands of short random histories of the consumption API are recorded at the call boundary and checked (each occurrence at most once, input order, allowed variants only, drain returns the rest exactly once); every sequence configuration is checked for A+B+C = input.",
+        "Exploration: block-4 texts of all corpus messages and their structural mutants are tokenised by the library and by the reference tokeniser (occurrences, documented tag normalisation, content, strictly increasing stamps); thousands of short random histories of the consumption API (lookups by tag and option constraint, next-available, consumption in and out of input order) are recorded at the call boundary and checked (each occurrence at most once, input order, allowed variants only, drain returns the rest exactly once); every sequence configuration is checked for A+B+C = input.",
         "Trusted: reference tokeniser; the restated normalisation rule tolerates both spellings where the documentation is silent.",
         "DESIGN.md section 3, C16",
     ),
@@ -80,7 +80,7 @@ CLAIMED = {
     ),
     "C17": (
         "runtime monitor, exhaustive product of code-word variants x places x types; documented-place oracle (three-valued), cross-type agreement, predicate-implies-method check through the real parse plugin",
-        "Exhaustive exploration of the product the property quantifies over (14 field-72 variants x 6 {108:} variants x 5 {119:} variants) on real messages of MT103/202/205 and of each other type: classification iff code word at a documented place, return-only never reject, same words same classification across supporting types, plugin method = method implied by the predicates.",
+        "Exhaustive exploration of the product the property quantifies over (14 field-72 variants x 6 {108:} variants x 5 {119:} variants) on real messages of MT103/202/205 and of each other type, plus MT202 with a cover sequence carrying none / one / both customer fields: classification iff code word at a documented place, return-only never reject, same words same classification across supporting types, plugin method = method implied by the predicates.",
         "Documented places are restated in the harness (line start of field 72, whole {108:} value); other spellings are only used for agreement checks.",
         "DESIGN.md section 3, C17",
     ),
@@ -92,7 +92,7 @@ CLAIMED = {
     ),
     "C05": (
         "runtime monitor: SWIFT-format-notation reference acceptor (three-valued) vs the 114 field parsers on class-labelled candidates derived from each documented format, plus field-level conservation",
-        "Exploration: for each of the 89 concrete field types and the 25 option families, every component at lengths 0, min-1, min, max, max+1, max+2, thirteen character classes at first / middle / last position, separators missing or doubled, embedded newlines, line counts 0, max+1, max+2, empty lines, trailing characters, case, plus seeded random edits and strings: accepted iff the reference acceptor says the content conforms (contents the documentation does not settle are not judged), and every accepted content must come back from serialisation.",
+        "Exploration: for each of the 88 concrete field types with a documented format and the 25 option families, every component at lengths 0, min-1, min, max, max+1, max+2 (min and max also with the optional rest absent), seventeen character classes (digit, zero, upper, lower, blank, signs, dot, comma, slash, non-SWIFT, control, non-ASCII) at first / middle / last position and on the 11-character BIC shape, dates around the century window, separators missing or doubled, embedded newlines, line counts 0, max+1, max+2 (also with optional lines absent), empty lines, trailing characters, case, plus seeded random edits and strings: accepted iff the reference acceptor says the content conforms (contents the documentation does not settle are not judged), and every accepted content must come back from serialisation.",
         "Trusted base: spec/fieldfmt.rs (documented formats restated as data + 300-line interpreter). Disagreements were triaged in both directions (DESIGN.md section 8).",
         "DESIGN.md section 3, C05",
     ),
@@ -104,7 +104,7 @@ CLAIMED = {
     ),
     "C07": (
         "runtime monitor: catch_unwind + panic-hook over all public entry points on hostile/mutated inputs; CPU-time size ramps",
-        "Exploration: every public parse / validate / serialise / JSON / error-rendering entry point is executed under a panic monitor on corpus-derived, systematically and randomly mutated inputs (non-ASCII, truncation, structure characters, size ramps); held = no panic/timeout outside the listed known findings on the executions observed.",
+        "Exploration: every public parse / validate / serialise / JSON / error-rendering entry point is executed under a panic monitor on corpus-derived, systematically and randomly mutated inputs (non-ASCII, truncation, structure characters, size ramps) and on values only JSON can produce (the rule-violating states of the C04 enumeration, every array emptied); held = no panic/timeout outside the listed known findings on the executions observed.",
         "Trusted: Rust's catch_unwind and panic hook report every panic; worker death is reported by the check script. Not a proof over all inputs.",
         "DESIGN.md section 3, C07",
     ),
